@@ -19,6 +19,27 @@ KEY_POOLS = {
 }
 
 
+# VALUES stored in the containers.  "int": small integers (the domain of the Coq model); "mixed": also floats (incl. nan,
+# inf, -0.0, huge), strings, None, bool, numpy arrays and scalars, nested tuples — in the tagged encoding decoded by the
+# runner.  Histories with mixed values are judged by the implementation-side oracles only.
+VALUE_POOL = ["\x02f:0.5", "\x02f:-2.25", "\x02f:1e+308", "\x02f:nan", "\x02f:inf", "\x02f:-0.0", "\x02f:3.0", "\x02s:ab", "\x02s:", "\x02none",
+              "\x02b:1", "\x02b:0", "\x02arr:[1, 2, 3]", "\x02arr:[0.5, -1.0]", "\x02arr:[]", "\x02np:7", "\x02npf:2.5", "\x02tup:[1, 2]",
+              "\x02big:123456789012345678901234567890", "\x02c:1+2j", "\x02list:[1, 2]"]
+
+
+NUMERIC_POOL = [v for v in VALUE_POOL if v.split(":")[0][1:] in ("f", "b", "np", "npf", "big", "c")]
+
+
+def gen_value(rng, values="int", lo=-9, hi=9):
+    if values == "mixed" and rng.random() < 0.45:
+        return rng.choice(VALUE_POOL if rng.random() < 0.25 else NUMERIC_POOL)
+    return rng.randint(lo, hi)
+
+
+def is_int_case(case):
+    return "\\u0002" not in json.dumps(case)
+
+
 def rename_keys(rng, spec, leaves, conts, pool, p_rename=0.6):
     """renames keys of the dict containers under label "c" (attribute names must stay identifiers)"""
     mapping = {}
@@ -46,13 +67,13 @@ def rename_keys(rng, spec, leaves, conts, pool, p_rename=0.6):
     return spec, [rp(p) for p in leaves], [rp(p) for p in conts]
 
 
-def make_store(rng, nested=True, attrdict=False, keys=None):
+def make_store(rng, nested=True, attrdict=False, keys=None, values="int"):
     """returns (spec, leaves, containers).  spec: [[label, node]...]"""
     if keys:
-        spec, leaves, conts = make_store(rng, nested, attrdict)
+        spec, leaves, conts = make_store(rng, nested, attrdict, None, values)
         return rename_keys(rng, spec, leaves, conts, KEY_POOLS[keys])
     def leafs(names):
-        return [[k, rng.randint(-9, 9)] for k in names]
+        return [[k, gen_value(rng, values)] for k in names]
     kn = rng.choice(["dict", "obj"])
     kp = rng.choice(["dict", "obj"])
     step = lambda kind: "i" if kind in ("dict", "list") else "a"
@@ -63,7 +84,7 @@ def make_store(rng, nested=True, attrdict=False, keys=None):
         p = {"kind": kp, "items": leafs("uv")}
         n = {"kind": kn, "items": leafs("xyzw") + [["p", p]]}
         c_items.append(["n", n])
-        c_items.append(["l", {"kind": "list", "items": [[i, rng.randint(-9, 9)] for i in range(3)]}])
+        c_items.append(["l", {"kind": "list", "items": [[i, gen_value(rng, values)] for i in range(3)]}])
         leaves += [["c", ["i", "n"], [step(kn), k]] for k in "xyzw"]
         leaves += [["c", ["i", "n"], [step(kn), "p"], [step(kp), k]] for k in "uv"]
         leaves += [["c", ["i", "l"], ["i", i]] for i in range(3)]
@@ -96,12 +117,12 @@ FAULT_KINDS = ["Fault"] * 6 + ["StopIteration", "StopIteration", "KeyError", "Va
                                 "ZeroDivisionError", "RecursionError", "BaseFault", "GeneratorExit", "StopAsyncIteration"]
 
 
-def gen_history(rng, profile="mixed", nops=None, nofun=False, attrdict=False, keys="auto"):
-    """keys: None | "strings" | "exotic" | "auto" (one history in four uses the "strings" pool)"""
+def gen_history(rng, profile="mixed", nops=None, nofun=False, attrdict=False, keys="auto", values="int"):
+    """keys: None | "strings" | "exotic" | "auto" (one history in four uses the "strings" pool); values: "int" | "mixed"."""
     if keys == "auto":
         keys = "strings" if rng.random() < 0.25 else None
     nested = profile not in ("flat", "assign_flat") and not (profile == "windows" and rng.random() < 0.5)
-    spec, leaves, conts = make_store(rng, nested, attrdict, keys)
+    spec, leaves, conts = make_store(rng, nested, attrdict, keys, values)
     rank = list(leaves)
     rng.shuffle(rank)
     hot = rank[:3]            # "windows": a few low-ranked locations that are assigned again and again
@@ -124,11 +145,11 @@ def gen_history(rng, profile="mixed", nops=None, nofun=False, attrdict=False, ke
                 ops.append(["freeze"] if frozen else ["unfreeze"])
             continue
         if profile == "windows" and rng.random() < 0.35:
-            ops.append(["set", rng.choice(hot), ["plain", rng.randint(-9, 9)]])
+            ops.append(["set", rng.choice(hot), ["plain", gen_value(rng, values)]])
             continue
         if profile == "fault" and rng.random() < 0.3:
             t2 = rng.choice(leaves)
-            val = rng.randint(-9, 9)
+            val = gen_value(rng, values)
             for _rep in range(rng.choice([1, 1, 1, 2, 3])):          # several faulty updates in a row
                 ops.append(["arm", rng.choice([0, 0, 1, 1, 2, 2, 3, 4, 6]), rng.choice(FAULT_KINDS)])
                 ops.append(["set", t2, ["plain", val]])
@@ -144,20 +165,20 @@ def gen_history(rng, profile="mixed", nops=None, nofun=False, attrdict=False, ke
                (pool is leaves or all(pos[json.dumps(p)] < pos[json.dumps(t)] for p in leaves if inside(p, c)))]
         if profile in ("assign", "assign_flat"):
             if k < 0.42:
-                ops.append(["set", t, ["plain", rng.randint(-9, 9)]])
+                ops.append(["set", t, ["plain", gen_value(rng, values)]])
             elif k < 0.86 and pool:
                 ops.append(["set", t, ["expr", gen_expr(rng, pool, okc)]])
             elif k < 0.95:
-                ops.append(["inplace", t, rng.choice("+-*"), rng.randint(-3, 3)])
+                ops.append(["inplace", t, rng.choice("+-*"), gen_value(rng, values, -3, 3)])
             else:
                 ops.append(["unregister", t])
             continue
         if k < 0.36:
-            ops.append(["set", t, ["plain", rng.randint(-9, 9)]])
+            ops.append(["set", t, ["plain", gen_value(rng, values)]])
         elif k < 0.72 and pool:
             ops.append(["set", t, ["expr", gen_expr(rng, pool, okc if nested else [])]])
         elif k < 0.80:
-            ops.append(["inplace", t, rng.choice("+-*"), rng.randint(-3, 3)])
+            ops.append(["inplace", t, rng.choice("+-*"), gen_value(rng, values, -3, 3)])
         elif k < 0.86:
             ops.append(["unregister", t])
         elif k < 0.90 and pool and profile not in ("flat",) and not nofun:
@@ -335,6 +356,8 @@ def model_compare(ctx, cases, observations, tag, per_file=20):
     for chunk in vlib.chunks(list(range(len(cases))), per_file):
         items, ids = [], []
         for i in chunk:
+            if not is_int_case(cases[i]):
+                continue                  # values outside the model's domain: judged by the oracles only
             e = emit_case(cases[i], observations[i])
             if e is None:
                 skipped.append(i)
@@ -363,6 +386,16 @@ def run_impl_cases(cases, build="compiled", hashseed=0, opts=None, timeout=1800)
     for r in rs:
         out += r["cases"]
     return out
+
+
+def error_free_prefix(cases, obs):
+    """histories with mixed value types: an operation may legitimately raise (None + 1, shape mismatch) and leave a
+    half-propagated state, which is the subject of C18, not of the other properties: judge the error-free prefix"""
+    oc, oo = [], []
+    for c, ol in zip(cases, obs):
+        k = next((j for j, o in enumerate(ol) if o["err"] is not None), len(ol))
+        oc.append(dict(c, ops=c["ops"][:k])); oo.append(ol[:k])
+    return oc, oo
 
 
 def op_distribution(cases):
